@@ -30,7 +30,7 @@ fn meta() -> Meta {
     Meta {
         id: "C12",
         level: "model_checking",
-        rule: "for every multiset of 2 (all) or 3 (selected) operations from {set_new_spec(A), parse_new_spec(B), push_temp_spec(C), push_temp_spec(C)+pop_temp_spec, set_new_spec(D)}, every interleaving of the threads' scheduling points (thread start, acquisition of the spec write lock, global max-level update, thread end) is executed under the controlled scheduler; states = choice points visited, transitions = scheduling decisions taken; a schedule is non-trivial when it contains at least one preemption; plus WatcherE (the specfile watcher's path through a guarded hook) as sixth operation and a Probe thread reading log::max_level() at any moment (the additional writer's max_log_level() is a scheduling point): the gate is never below that writer's ceiling",
+        rule: "for every multiset of 2 (all) or 3 (selected) operations from {set_new_spec(A), parse_new_spec(B), push_temp_spec(C), push_temp_spec(C)+pop_temp_spec, set_new_spec(D)}, every interleaving of the threads' scheduling points (thread start, acquisition of the spec write lock, global max-level update, thread end) is executed under the controlled scheduler; states = choice points visited, transitions = scheduling decisions taken; a schedule is non-trivial when it contains at least one preemption; plus WatcherE (the specfile watcher's path through a guarded hook) as sixth operation and a Probe thread reading log::max_level() at any moment (the additional writer's max_log_level() is a scheduling point): the gate is never below that writer's ceiling; every pair also with the spec lock left un-modelled (real blocking on the RwLock, detected from the kernel thread state)",
         assumptions: vec![
             "sequentially consistent interleaving at hook granularity (spec RwLock section and log::set_max_level are the only shared accesses of these operations)".into(),
             "the specfile watcher calls the same WritersHandle::set_new_spec and is covered as another thread".into(),
@@ -111,8 +111,21 @@ fn harnesses(tier: &str) -> Vec<Vec<Op>> {
     v
 }
 
+/// Pairs that are explored a second time with the spec lock left un-modelled (its hooks are plain
+/// scheduling points, threads really block on the RwLock): a change that releases the real lock
+/// earlier than the hook scope says is then not masked by the model.
+fn unmodelled_pairs() -> Vec<Vec<Op>> {
+    let mut v = Vec::new();
+    for a in 0..OPS.len() {
+        for b in a..OPS.len() {
+            v.push(vec![OPS[a], OPS[b]]);
+        }
+    }
+    v
+}
+
 fn units(tier: &str) -> usize {
-    harnesses(tier).len()
+    harnesses(tier).len() + unmodelled_pairs().len()
 }
 fn bounds(tier: &str) -> Value {
     json!({"harnesses": harnesses(tier).iter().map(|h| format!("{h:?}")).collect::<Vec<_>>(), "preemption_bound": "none (all interleavings)"})
@@ -126,6 +139,14 @@ struct Obs {
     gate: LevelFilter,
     /// what the probing thread saw
     probed: Option<LevelFilter>,
+}
+
+fn sched_cfg_for(unmodelled: bool) -> SchedCfg {
+    let mut c = sched_cfg();
+    if unmodelled {
+        c.nonblocking_locks = vec!["spec_lock"];
+    }
+    c
 }
 
 fn sched_cfg() -> SchedCfg {
@@ -261,8 +282,9 @@ fn judge(ops: &[Op], o: &Obs) -> Result<usize, (String, String)> {
 
 fn run_unit(tier: &str, unit: usize, out: &mut Out) {
     let hs = harnesses(tier);
-    let ops = hs[unit].clone();
-    let cfg = sched_cfg();
+    let unmodelled = unit >= hs.len();
+    let ops = if unmodelled { unmodelled_pairs()[unit - hs.len()].clone() } else { hs[unit].clone() };
+    let cfg = sched_cfg_for(unmodelled);
     let b = body(ops.clone());
     let mut first_bad: Option<Violation> = None;
     let ops2 = ops.clone();
@@ -311,7 +333,7 @@ fn run_unit(tier: &str, unit: usize, out: &mut Out) {
     out.count("schedules", stats.schedules);
     out.max("max_choice_points_per_schedule", stats.max_points as u64);
     for (k, n) in outcomes {
-        *out.outcomes.entry(format!("{ops:?}: {k}")).or_insert(0) += n;
+        *out.outcomes.entry(format!("{ops:?}{}: {k}", if unmodelled { " (spec lock un-modelled)" } else { "" })).or_insert(0) += n;
     }
     // states: distinct (harness, depth, enabled-set) is not tracked; count choice points as states
     for i in 0..stats.choice_points.min(2_000_000) {
@@ -346,9 +368,11 @@ fn replay(case: &Value) -> Vec<Violation> {
     let tier = case["tier"].as_str().unwrap_or("quick");
     let unit = case["unit"].as_u64().unwrap_or(0) as usize;
     let hs = harnesses(tier);
-    let Some(ops) = hs.get(unit) else { return vec![] };
+    let up = unmodelled_pairs();
+    let unmodelled = unit >= hs.len();
+    let Some(ops) = (if unmodelled { up.get(unit - hs.len()) } else { hs.get(unit) }) else { return vec![] };
     let sch: Vec<usize> = case["schedule"].as_array().into_iter().flatten().filter_map(|x| x.as_u64().map(|n| n as usize)).collect();
-    let mut cfg = sched_cfg();
+    let mut cfg = sched_cfg_for(unmodelled);
     cfg.keep_log = true;
     let ex = sched::run_once(&cfg, &sch, None, body(ops.clone()));
     println!("replay C12: ops={ops:?} schedule={sch:?}");
